@@ -2,6 +2,9 @@ import EaselModel.Miniapps.Range
 import EaselModel.Miniapps.Reformat
 import EaselModel.Miniapps.Selectn
 import EaselModel.Miniapps.Shuffle
+import EaselModel.Miniapps.Translate
+import EaselModel.Miniapps.Alistat
+import EaselModel.Miniapps.Weight
 /-! # C13 — command-line front end of the reference functions: `runTool tool argv files` = predicted stdout -/
 namespace EaselModel.Miniapps
 
@@ -14,16 +17,15 @@ structure Parsed where
 def parseArgs (noArg withArg : List String) : List String → Parsed → Option Parsed
   | [], p => some { p with flags := p.flags.reverse, vals := p.vals.reverse, pos := p.pos.reverse }
   | a :: rest, p =>
-    if a.startsWith "-" && a.length > 1 && !(a.toList.drop 1).all Char.isDigit then
-      if !p.pos.isEmpty then none
-      else if noArg.contains a then
-        if p.flags.contains a then none else parseArgs noArg withArg rest { p with flags := a :: p.flags }
-      else if withArg.contains a then
-        match rest with
-        | v :: rest' =>
-          if (p.vals.map (·.1)).contains a then none else parseArgs noArg withArg rest' { p with vals := (a, v) :: p.vals }
-        | [] => none
-      else none
+    if noArg.contains a then
+      if !p.pos.isEmpty || p.flags.contains a then none else parseArgs noArg withArg rest { p with flags := a :: p.flags }
+    else if withArg.contains a then
+      if !p.pos.isEmpty then none else
+      match rest with
+      | v :: rest' =>
+        if (p.vals.map (·.1)).contains a then none else parseArgs noArg withArg rest' { p with vals := (a, v) :: p.vals }
+      | [] => none
+    else if a.startsWith "-" && a.length > 1 && !(a.toList.drop 1).all Char.isDigit then none
     else parseArgs noArg withArg rest { p with pos := a :: p.pos }
 
 def Parsed.has (p : Parsed) (f : String) : Bool := p.flags.contains f
@@ -116,6 +118,16 @@ def runSelectn (argv : List String) (files : String → Option (List Char)) : Op
   selectnText seed m f
 
 def parseIntS (s : String) : Option Int := s.toInt?
+
+def parseFloatS (s : String) : Option Float :=
+  match s.splitOn "." with
+  | [i] => i.toNat?.map Float.ofNat
+  | [i, f] => do
+    let ip ← if i.isEmpty then some 0 else i.toNat?
+    let fp ← if f.isEmpty then some 0 else f.toNat?
+    some (Float.ofScientific (ip * 10 ^ f.length + fp) true f.length)
+  | _ => none
+
 
 /-- esl-mask [-r] [-l | -m c] [-x n] <fasta> <maskfile>; sequential mode -/
 def runMask (argv : List String) (files : String → Option (List Char)) : Option String := do
@@ -214,7 +226,31 @@ def runShuffle (argv : List String) (files : String → Option (List Char)) : Op
     if recs.isEmpty || recs.any (fun r => r.seq.isEmpty || r.seq.any fun c => !c.isAlpha) then none
     some (shuffleText seed { mode := mode, k := k, w := w, N := N, L := L } recs)
 
-/-- easel downsample --seed s [-s] <m> <file> -/
+/-- esl-weight [-g | -p | -b [--id x]] --informat afa (--dna|--rna|--amino) <afa> -/
+def runWeight (argv : List String) (files : String → Option (List Char)) : Option String := do
+  let p ← parseArgs ["--dna", "--rna", "--amino", "-g", "-p", "-b"] ["--informat", "--id"] argv {}
+  if !fmtIs p "--informat" "afa" then none
+  let a ← abcOf p
+  let nalg := (if p.has "-g" then 1 else 0) + (if p.has "-p" then 1 else 0) + (if p.has "-b" then 1 else 0)
+  if nalg > 1 then none
+  if (p.val? "--id").isSome && !p.has "-b" then none
+  let maxid ← match p.val? "--id" with | some v => parseFloatS v | none => some 0.62
+  let [fn] := p.pos | none
+  let recs := parseFasta (← files fn)
+  if !alignedOk a recs || !namesDistinct recs then none
+  weightText a (if p.has "-p" then "-p" else if p.has "-b" then "-b" else "-g") maxid recs
+
+/-- esl-alistat [-1] --informat afa (--dna|--rna|--amino) <afa> -/
+def runAlistat (argv : List String) (files : String → Option (List Char)) : Option String := do
+  let p ← parseArgs ["--dna", "--rna", "--amino", "-1"] ["--informat"] argv {}
+  if !fmtIs p "--informat" "afa" then none
+  let a ← abcOf p
+  let [fn] := p.pos | none
+  let recs := parseFasta (← files fn)
+  if !alignedOk a recs || !namesDistinct recs then none
+  some (if p.has "-1" then eslAlistatOneLine a recs else eslAlistatText a recs)
+
+/-- easel downsample --seed s [-s] <m> <file>  |  easel alistat (--dna|--rna|--amino) <afa> -/
 def runEasel (argv : List String) (files : String → Option (List Char)) : Option String := do
   match argv with
   | "downsample" :: rest =>
@@ -230,6 +266,28 @@ def runEasel (argv : List String) (files : String → Option (List Char)) : Opti
     else
       if f.any (fun c => c.toNat = 0) then none
       downsampleLinesText seed m f
+  | ["index", fn] =>
+    let recs := parseFasta (← files fn)
+    if recs.isEmpty || !namesDistinct recs || recs.any (fun r => r.seq.isEmpty || r.seq.any fun c => !c.isAlpha) then none
+    let n := toString recs.length
+    some ("Creating SSI index " ++ fn ++ ".ssi for sequence file " ++ fn ++ "...    done.\nIndexed " ++ n ++ " sequences (" ++ n ++
+          " names).\nSSI index written to file " ++ fn ++ ".ssi\n")
+  | "filter" :: rest =>
+    let p ← parseArgs ["--dna", "--rna", "--amino"] ["--informat"] rest {}
+    if !fmtIs p "--informat" "afa" then none
+    let a ← abcOf p
+    let [mx, fn] := p.pos | none
+    let maxid ← parseFloatS mx
+    let recs := parseFasta (← files fn)
+    if !alignedOk a recs || !namesDistinct recs then none
+    filterText a maxid recs
+  | "alistat" :: rest =>
+    let p ← parseArgs ["--dna", "--rna", "--amino"] [] rest {}
+    let a ← abcOf p
+    let [fn] := p.pos | none
+    let recs := parseFasta (← files fn)
+    if !alignedOk a recs || !namesDistinct recs then none
+    some (easelAlistatText a recs)
   | _ => none
 
 /-! esl-sfetch (an SSI index must exist: the driver records `<file>.ssi` when it sees `esl-sfetch --index <file>`) -/
@@ -309,6 +367,20 @@ def runSfetch (argv : List String) (files : String → Option (List Char)) : Opt
         some (String.ofList o)
       | none => (fetchOne p f recs arg2.toList).map String.ofList
 
+/-- esl-translate [-c id] [-l n] [-m | -M] [--watson | --crick] --informat fasta <fasta> -/
+def runTranslate (argv : List String) (files : String → Option (List Char)) : Option String := do
+  let p ← parseArgs ["-m", "-M", "--watson", "--crick", "-W"] ["-c", "-l", "--informat"] argv {}
+  if !fmtIs p "--informat" "fasta" then none
+  if (p.has "-m" && p.has "-M") || (p.has "--watson" && p.has "--crick") then none
+  let code ← match p.val? "-c" with | some v => v.toInt? | none => some 1
+  let minlen ← match p.val? "-l" with | some v => v.toInt? | none => some 20
+  if minlen < 0 then none
+  let [fn] := p.pos | none
+  let recs := parseFasta (← files fn)
+  if recs.isEmpty then none
+  translateText { code := code, minlen := minlen, onlyAUG := p.has "-m", tableInit := p.has "-M",
+                  watson := !p.has "--crick", crick := !p.has "--watson", windows := p.has "-W" } recs
+
 def runTool (tool : String) (argv : List String) (files : String → Option (List Char)) : Option String :=
   match tool with
   | "esl-seqstat" => runSeqstat argv files
@@ -320,6 +392,9 @@ def runTool (tool : String) (argv : List String) (files : String → Option (Lis
   | "esl-reformat" => runReformat argv files
   | "esl-shuffle" => runShuffle argv files
   | "esl-sfetch" => runSfetch argv files
+  | "esl-translate" => runTranslate argv files
+  | "esl-alistat" => runAlistat argv files
+  | "esl-weight" => runWeight argv files
   | "easel" => runEasel argv files
   | _ => none
 
